@@ -1,6 +1,7 @@
 package props
 
 import (
+	"math"
 	"fmt"
 	"reflect"
 	"strings"
@@ -194,8 +195,12 @@ func c15Predicates(c *core.Ctx, t reflect.Type) {
 		if model.IsFloat(t) {
 			for _, soft := range []bool{false, true} {
 				for _, prior := range []string{"none", "some"} {
-					for _, variant := range []string{"default-delta", "rtol-atol"} {
+					for _, variant := range []string{"default-delta", "rtol-atol", "rtol-atol-negative"} {
 						vals := gen.SmallInts(t, n, c.Rng, 1, 5)
+						if variant == "rtol-atol-negative" {
+							// a negative reference value: the tolerance is atol + rtol*|x|, not |atol + rtol*x|
+							vals = gen.SmallInts(t, n, c.Rng, -8, -2)
+						}
 						op, err := gen.Build(model.New(t, shape, vals), gen.LC, c.Rng)
 						if err != nil {
 							continue
@@ -219,8 +224,10 @@ func c15Predicates(c *core.Ctx, t reflect.Type) {
 						p, msg := core.Catch(func() {
 							if variant == "default-delta" {
 								perr, _ = callMethod(d, "MaskedValues", x, model.FromFloat(t, 0))
-							} else {
+							} else if variant == "rtol-atol" {
 								perr = d.MaskedValues(x, model.FromFloat(t, 0.125), model.FromFloat(t, 0.25))
+							} else {
+								perr = d.MaskedValues(x, model.FromFloat(t, 0.25), model.FromFloat(t, 0.5))
 							}
 						})
 						sh := "hard"
@@ -237,6 +244,9 @@ func c15Predicates(c *core.Ctx, t reflect.Type) {
 						delta := 1e-8
 						if variant == "rtol-atol" {
 							delta = 0.25 + 0.125*model.ToFloat(x)
+						}
+						if variant == "rtol-atol-negative" {
+							delta = 0.5 + 0.25*math.Abs(model.ToFloat(x)) // x in -8..-2: 1.0..2.5, so neighbours at distance 1 (and 2) are inside
 						}
 						got := d.Mask()
 						for i, v := range vals {
